@@ -266,6 +266,16 @@ impl FileReader for IOFileReader {
                 .to_owned()
         };
 
+        // A file is read once. Reading it again - a file that includes itself, or
+        // a cycle of includes - would expand forever.
+        let same_file = |a: &str, b: &str| match (std::fs::canonicalize(a), std::fs::canonicalize(b)) {
+            (Ok(a), Ok(b)) => a == b,
+            _ => a == b,
+        };
+        if self.files.values().any(|(read, _)| same_file(read, &path)) {
+            return Err(FileReaderError::FileAlreadyRead(path));
+        }
+
         // open file and read it
         let file = match std::fs::read_to_string(path.clone()) {
             Ok(file) => file,
